@@ -330,3 +330,70 @@ Proof.
     + destruct (relationship t (t + pow10 (S l)) s m), (relationship t (t + pow10 (S l)) m e),
                (relationship t (t + pow10 (S l)) s e); cbn [covers is_outside] in *; lia.
 Qed.
+
+(* ---------- histories ---------- *)
+Lemma sumZ_rev l : sumZ (rev l) = sumZ l.
+Proof. induction l as [|x l IH]; [reflexivity|]. cbn [rev]. rewrite sumZ_app, IH. unfold sumZ. cbn [fold_right]. lia. Qed.
+
+Lemma WR_rev ws lo hi : WR (rev ws) lo hi = WR ws lo hi.
+Proof. unfold WR. rewrite map_rev. apply sumZ_rev. Qed.
+
+Lemma valid_good K ws : Forall (valid_write K) ws -> Forall good_write ws.
+Proof. intros H. eapply Forall_impl; [|exact H]. intros w [[H1 _] H2]. split; assumption. Qed.
+
+(* the facts about the reached root that the read-side lemmas need *)
+Lemma run_root K ws : Forall (valid_write K) ws ->
+  match s_root (fst (run_writes ws)) with
+  | None => ws = []
+  | Some (lvl, n) =>
+      wf lvl n /\ ninv (snd (run_writes ws)) (rev ws) lvl n /\
+      content (snd (run_writes ws)) lvl n = W (rev ws) lvl (sn_time n) /\
+      hist_in lvl (sn_time n) (rev ws)
+  end.
+Proof.
+  intros Hv. pose proof (run_writes_sinv K ws Hv) as G. unfold sinv in G.
+  destruct (s_root (fst (run_writes ws))) as [[lvl n]|].
+  - destruct G as ((_ & Hwf & _) & (_ & Hn & _ & Hroot & Hh)). auto.
+  - destruct G as [G _]. destruct ws as [|w ws]; [reflexivity|].
+    cbn [rev] in G. destruct (rev ws); discriminate.
+Qed.
+
+Theorem no_more K ws qa qb : Forall (valid_write K) ws -> qa < qb ->
+  read_sum (snd (run_writes ws)) (s_get qa qb (fst (run_writes ws))) <= WR ws qa qb.
+Proof.
+  intros Hv Hq. pose proof (run_root K ws Hv) as G. pose proof (valid_good K ws Hv) as HG.
+  unfold s_get. destruct (s_root (fst (run_writes ws))) as [[lvl n]|].
+  - destruct G as (Hwf & Hn & _ & _). rewrite read_sum_gsum by assumption.
+    assert (HGr : Forall good_write (rev ws)) by (apply Forall_rev; exact HG).
+    pose proof (gsum_le lvl n _ _ qa qb Hq HGr Hwf Hn) as Hle.
+    pose proof (WR_mono (rev ws) (Z.max (sn_time n) qa) (Z.min (sn_time n + pow10 lvl) qb) qa qb HGr ltac:(lia) ltac:(lia)).
+    rewrite WR_rev in *. lia.
+  - cbn. apply WR_nonneg. exact HG.
+Qed.
+
+Theorem total K ws qa qb : Forall (valid_write K) ws -> qa < qb ->
+  Forall (fun w => qa <= w_a w /\ w_b w <= qb) ws ->
+  read_sum (snd (run_writes ws)) (s_get qa qb (fst (run_writes ws))) =
+  sumZ (map (fun w => (w_b w - w_a w) * w_beta w) ws).
+Proof.
+  intros Hv Hq Hin. pose proof (run_root K ws Hv) as G. pose proof (valid_good K ws Hv) as HG.
+  unfold s_get. destruct (s_root (fst (run_writes ws))) as [[lvl n]|].
+  - destruct G as (Hwf & Hn & Hroot & Hh). rewrite read_sum_gsum by assumption.
+    assert (HGr : Forall good_write (rev ws)) by (apply Forall_rev; exact HG).
+    assert (Hinr : all_inside (rev ws) qa qb) by (apply Forall_rev; exact Hin).
+    rewrite (gsum_total lvl n _ _ qa qb Hq HGr Hinr Hwf Hn Hroot).
+    rewrite <- sumZ_rev, <- map_rev. unfold W. f_equal. apply map_ext_Forall.
+    eapply Forall_impl; [|exact Hh]. intros w ((G1 & G2) & G3 & G4). unfold wov, ov. f_equal. lia.
+  - subst ws. reflexivity.
+Qed.
+
+Theorem split K ws s m e : Forall (valid_write K) ws -> s < m -> m < e ->
+  read_sum (snd (run_writes ws)) (s_get s m (fst (run_writes ws))) +
+  read_sum (snd (run_writes ws)) (s_get m e (fst (run_writes ws))) <=
+  read_sum (snd (run_writes ws)) (s_get s e (fst (run_writes ws))).
+Proof.
+  intros Hv Hsm Hme. pose proof (run_root K ws Hv) as G.
+  unfold s_get. destruct (s_root (fst (run_writes ws))) as [[lvl n]|]; [|cbn; lia].
+  destruct G as (Hwf & Hn & _ & _). rewrite !read_sum_gsum by (assumption || lia).
+  eapply gsum_split; eauto.
+Qed.
